@@ -189,3 +189,27 @@ func (s *VerifSST) Meta() (keyCount uint32, maxVersion uint64, minKey, maxKey []
 
 // VerifBloomBitsPerKey exposes the float computation of the builder.
 func VerifBloomBitsPerKey(n int, fp float64) int { return utils.BloomBitsPerKey(n, fp) }
+
+// SeekSeq re-positions ONE table iterator with Seek(key) for every key in
+// turn and returns, per key, the entry it lands on followed by up to limit-1
+// entries reached with Next (empty = invalid after the Seek).
+func (s *VerifSST) SeekSeq(keys [][]byte, asc bool, limit int) (out [][]VerifEntry, err error) {
+	defer func() {
+		if r := recover(); r != nil {
+			err = fmt.Errorf("panic: %v", r)
+		}
+	}()
+	it := s.t.NewIterator(&utils.Options{IsAsc: asc})
+	defer func() { _ = it.Close() }()
+	for _, k := range keys {
+		var got []VerifEntry
+		for it.Seek(k); it.Valid(); it.Next() {
+			got = append(got, verifEntryOf(it.Item().Entry()))
+			if limit > 0 && len(got) >= limit {
+				break
+			}
+		}
+		out = append(out, got)
+	}
+	return out, nil
+}
